@@ -137,6 +137,24 @@ CLAIMED["C04"] = dict(
         "Concurrent incr excluded by the property. Trusted: Coq kernel, harness incl. verifPoint parking, python oracle. No axioms.",
    technique="Rocq proof of linearizability of an interleaving model (simulation with explicit linearization points, append-only log lemma); forced-schedule differential replay + stress with register oracle",
    design="6/C04")
+CLAIMED["C05"] = dict(
+   text="Theorems (coq/props/C05.v) over the GC record step split where a client can overtake it (phase 1 newest-check + copy, phase 2 tree repoint + "
+        "hint / collision-table update on the bucket as it is then; proved equal to the sequential GC step, and the pass with an insertion point "
+        "proved equal to the sequential pass when nothing is inserted): for ALL bucket states, relocations and client writes of a newer version that "
+        "land between copy and index update, get's lookup of the key (collision-table entry first, tree slot otherwise) is after GC's update exactly "
+        "what the client's write installed, the client's record is still there, and GC's update touches no data file "
+        "(C05_write_during_gc_survives, C05_finish_keeps_lookup, C05_write_enters_table); the two conditions are translated from store/gc.go and "
+        "store/collision.go and proved on; the code before the repairs is refuted with witnesses (F20 unconditional repoint, F22 forced "
+        "collision-table update -- both genuine defects found by the forced schedules and repaired by fix: commits). Tie to the code: seeded "
+        "histories followed by a real GC pass parked right after the copy of its n-th relocated record (verifPoint gc.appended) while a client "
+        "sets / deletes a key, then gets of all keys, restart, gets -- replayed with every reply and the GC statistics on the split step inside "
+        "Coq (60 per quick run, colliding keys included) and judged by a python last-acknowledged-write oracle; plus 7 scripted forced schedules "
+        "(write between re-read and repoint, after the copy, colliding keys).",
+   note="PARTIAL: one insertion point per pass (after a copy); insertion between GC's newest-check and its copy, cancel at file boundaries and "
+        "reads concurrent with the pass are exercised by the C04 stress suite only; the lock-granular atomicity of the client write is an "
+        "assumption validated by the schedules. Trusted: Coq kernel, translator, harness incl. verifPoint parking, python oracle. No axioms.",
+   technique="Rocq proof that GC's index update preserves a newer client write (split-step model proved equal to the sequential step); refutation witnesses; forced-schedule differential replay",
+   design="6/C05")
 NOT_YET = {}
 props = [json.loads(l) for l in open(os.path.join(V, "properties.jsonl"))]
 checks = []
